@@ -124,6 +124,9 @@ type SlotsPlugin struct {
 	// FailUsageWrites: that many of the next SetNodeResourceUsage calls fail before writing (harnesses without a
 	// Boundary use it to make the commit of a multi-plugin operation fail in the second plugin)
 	FailUsageWrites int
+	// OnFailedUsageWrite, when set, runs when such an injected failure happens (the harness cancels the caller's
+	// context at that moment: a caller that gives up while the commit is failing)
+	OnFailedUsageWrite func()
 }
 
 var _ plugins.Plugin = (*SlotsPlugin)(nil)
@@ -342,6 +345,9 @@ func (s *SlotsPlugin) SetNodeResourceUsage(_ context.Context, nodename string, r
 	defer s.mu.Unlock()
 	if s.FailUsageWrites > 0 {
 		s.FailUsageWrites--
+		if f := s.OnFailedUsageWrite; f != nil {
+			f()
+		}
 		return nil, fmt.Errorf("slots: injected failure of a usage write")
 	}
 	n, ok := s.nodes[nodename]
